@@ -305,3 +305,59 @@ macro_rules! defprog {
       }
    };
 }
+
+/// Like `defprog!` for programs that only the serial front end accepts (BYODS providers without a
+/// parallel implementation): `ser` and `ser_to` instantiations only.
+#[macro_export]
+macro_rules! defprog_ser {
+   (
+      name: $name:ident;
+      positive: $positive:expr;
+      tags: [$($tag:expr),* $(,)?];
+      reference: $reference:expr;
+      rels: { $( $kind:ident $(#[$attr:meta])* $rel:ident ( $($ty:ty),* ) [ $($flag:ident),* ] ; )* }
+      gens: [$($gen:expr),* $(,)?];
+      rules: $rules:tt
+   ) => {
+      pub mod $name {
+         #![allow(unused_imports, dead_code)]
+         use super::*;
+         $crate::__variant!(ser, ascent, ser, no, [],
+            { $( $kind $(#[$attr])* $rel ( $($ty),* ) [ $($flag),* ] ; )* }, $rules);
+         $crate::__variant!(ser_to, ascent, ser, yes, [#![generate_run_timeout]],
+            { $( $kind $(#[$attr])* $rel ( $($ty),* ) [ $($flag),* ] ; )* }, $rules);
+
+         pub fn make(v: $crate::prog::Variant) -> Box<dyn $crate::prog::Instance> {
+            match v {
+               $crate::prog::Variant::Ser => Box::new(ser::P::default()),
+               $crate::prog::Variant::SerTo => Box::new(ser_to::P::default()),
+               other => panic!("program {} has no {:?} instantiation", stringify!($name), other),
+            }
+         }
+
+         pub fn def() -> $crate::prog::ProgramDef {
+            $crate::prog::ProgramDef {
+               name: stringify!($name),
+               rels: vec![ $(
+                  $crate::prog::RelMeta {
+                     name: stringify!($rel),
+                     lattice: $crate::__is_lattice!($kind),
+                     input: $crate::__has_flag!(input; $($flag),*),
+                     io: !$crate::__has_flag!(noio; $($flag),*),
+                     arity: { let a: &[&str] = &[$(stringify!($ty)),*]; a.len() },
+                     col_gen: vec![ $( <$ty as $crate::val::ValType>::arbitrary as fn(&mut $crate::val::Rng, u64) -> $crate::val::Val ),* ],
+                     lat_leq: $crate::__lat_leq!($kind; $($ty),*),
+                  }
+               ),* ],
+               variants: vec![$crate::prog::Variant::Ser, $crate::prog::Variant::SerTo],
+               positive: $positive,
+               tags: vec![$($tag),*],
+               make,
+               gens: vec![$($gen),*],
+               reference: $reference,
+               source: stringify!($rules),
+            }
+         }
+      }
+   };
+}
